@@ -72,6 +72,11 @@ RULES = {
         (r'\.unwrap\(\)', r'.vunwrap()', '.unwrap() -> .vunwrap()'),
         (r'\.expect\("[^"]*"\)', r'.vunwrap()', '.expect(..) -> .vunwrap()'),
     ],
+    # Rmm (always on): the free functions core::cmp::{min,max} are defined by core as `v1.min(v2)` /
+    # `v1.max(v2)`; Verus specifies the Ord methods but not the free functions.
+    'Rmm': [
+        (r'(?<![\w:])(?:(?:core|std)::)?cmp::(min|max)\s*\(', r'Ord::\1(', 'cmp::min/max(a, b) -> Ord::min/max(a, b)'),
+    ],
     # Rlog: logging statements have no data flow.
     'Rlog': [
         (r'log::(?:debug|warn|info|error|trace)!\((?:[^()]|\((?:[^()]|\([^()]*\))*\))*\);', r'', 'log::*!(..); dropped'),
@@ -150,6 +155,7 @@ def rule_r8(text, report):
 
 
 def apply_rules(text, rules, report):
+    rules = list(rules) + ['Rmm']
     if 'R8' in rules:
         text = rule_r8(text, report)
         rules = [r for r in rules if r != 'R8']
@@ -347,6 +353,14 @@ class Assembler:
                 continue
             if b == 'novis':
                 opts['novis'] = True
+            elif b == 'nocontract':
+                # the item is verified WITHOUT a contract (an item the template does not name, hosted outside
+                # its trait): recorded so that the check reports its failure as "new code without a contract",
+                # not as a violation
+                m_ = re.search(r'(?:for\s+)?([A-Za-z_]\w*)\s*(?:<[^{}]*>)?\s*::\s*fn\s+(\w+)\s*$', spec)
+                mi_ = re.search(r'impl(?:<[^{}]*?>)?\s+(?:[\w:<>\', ]+\s+for\s+)?([A-Za-z_]\w*)', spec)
+                fnm_ = spec.rsplit('fn ', 1)[-1].strip()
+                self.report.setdefault('nocontract_items', []).append(f'{mi_.group(1) if mi_ else "?"}::{fnm_}')
             elif b == 'dropbody':
                 opts['dropbody'] = True
             elif b.startswith('ret '):
